@@ -9,7 +9,8 @@ PROP = 'C20'
 LEAN_TARGETS = ['Props.C20']
 REQUIRED_THEOREMS = ['Props.C20.fit_trace', 'Props.C20.steps_count', 'Props.C20.step_discipline_block',
                      'Props.C20.validation_pure', 'Props.C20.test_trace', 'Props.C20.history_shape', 'Props.C20.accuracy_spec',
-                     'Props.C20.evaluator_accumulates', 'Props.C20.evaluator_rejects', 'Props.C20.accuracy_batching_invariant',
+                     'Props.C20.evaluator_accumulates', 'Props.C20.evaluator_rejects', 'Props.C20.evaluator_rejects_single_column', 'Props.C20.evaluator_accepts_one_sample',
+                     'Props.C20.stepOk_iff', 'Props.C20.stepOk_singleton', 'Props.C20.wellShaped_iff', 'Props.C20.grouping_admissible', 'Props.C20.accuracy_regroup_singletons', 'Props.C20.accuracy_batching_invariant',
                      'Props.C20.accuracy_batching_invariant_fit', 'Props.C20.epoch_loss_is_mean', 'Props.C20.accuracy_is_fraction_correct',
                      'Props.C20.history_one_entry_per_epoch', 'Props.C20.decode_binary', 'Props.C20.decode_argmax', 'Props.C20.decode_label',
                      'Props.C20.wrap16_id', 'Props.C20.correct_of_int16_range', 'Props.C20.test_returns_all_samples']
@@ -18,11 +19,11 @@ RULE = ('grid epochs 0..3 x train batches 0..3 x validation (none, 0, 1, 2 batch
         'BatchNorm and Dropout, recording wrappers around model / optimizer / engine / Tensor.backward; quick samples the '
         'grid, thorough enumerates it. Non-trivial: at least one epoch and one batch. loaders partly iterated before fit or peeked at inside the callbacks; Trainer.test under both gradient modes, with the Trainer constructed under either mode. Plus accuracy cases in 3 modes. '
         'VALUES: (ev) the real Evaluator driven through random step/compute/reset/state sequences (3 modes, accuracy on/off, epoch and step callbacks, prefix None/val, '
-        'batches of 0 and 2..6 samples of different sizes, scores on scales 4 / 1024 / 2^24 crowded around the 0.5 threshold and full of ties, (B,) and (B,1) layouts) against evStep/evCompute/evReset; '
+        'batches of 0, 1 and 2..6 samples of different sizes, scores on scales 4 / 1024 / 2^24 crowded around the 0.5 threshold and full of ties, (B,) and (B,1) layouts) against evStep/evCompute/evReset; '
         '(hist) the real Trainer.fit on an identity model with a criterion returning planned dyadic losses, loaders whose batches differ in size, with/without validation/evaluator/callbacks, '
         'colliding callback metric names, non-float callback values, an evaluator handed over with leftovers, against fitHist: keys, entry counts, accuracy counts exactly, loss means within float rounding; '
         'one epoch of 40 batches x 1000 samples (counters beyond int16); (histreal) real training (Linear + BCE/CE/MSE + SGD) with the per-batch losses, labels and outputs recorded by a wrapper and sent '
-        'to the model as exact rationals / integers; (testret) what Trainer.test returns. Batches of ONE sample are not generated (finding F-C20-1: Evaluator.step raises on them; VERIF_C20_SIZE1=1 includes them).')
+        'to the model as exact rationals / integers; (testret) what Trainer.test returns. Batches of ONE sample are part of every generator (finding F-C20-1, Evaluator.step raised on them, was repaired by fix a611d24), incl. Trainer.fit over the real DataLoader with batch_size=1 and an evaluator; ev sequences may end in a step the code still rejects (one score column in an arg-max mode, several output / label columns where one is needed).')
 EXHAUSTIVE = {'quick': False, 'thorough': True}
 ASSUMPTIONS = ['pkbar progress bar is stubbed (harness/stubs/pkbar.py)']
 TRUSTED_BASE = ['harness/props/c20.py (recording wrappers, canonicalisation, exact float -> integer scaling of recorded outputs and losses)']
@@ -279,8 +280,6 @@ def _run_acc(c):
     else:
         out = sg.Tensor(np.array(c['scores'], dtype=np.float32))
         lab = sg.Tensor(np.eye(k, dtype=np.float32)[c['labels']])
-    if n == 1:   # squeeze() would drop the batch axis: outside the documented use
-        out = sg.Tensor(np.concatenate([out.data, out.data])); lab = sg.Tensor(np.concatenate([lab.data, lab.data]), dtype=lab.dtype)
     m = ev.step(lab, out)
     acc = float(dict(m)['accuracy'])
     preds = [int(v) for v in ev.y_pred][:n]
@@ -335,7 +334,7 @@ def distribution(cases):
     d = {}
     for c in cases:
         if c['kind'] in VALUE_KINDS:
-            k = c['kind'] + '/' + str(c.get('mode')) + ('/large' if c.get('large') else '')
+            k = c['kind'] + '/' + str(c.get('mode')) + ('/large' if c.get('large') else '') + ('/DataLoader' if c.get('dl') else '')
             d[k] = d.get(k, 0) + 1
             continue
         k = c['kind'] + ('/val' if c.get('nv') is not None else '') + ('/ev' if c.get('ev') else '')
@@ -425,10 +424,11 @@ def oracle(c):
 # -------------------------------------------------------------------------------------------------
 VALUE_KINDS = ('ev', 'hist', 'histreal', 'testret')
 MODE_NAMES = ['binary', 'multi-class', 'categorical']
-# Finding F-C20-1: Evaluator.step raises on a batch of ONE sample in every mode (`.squeeze()` drops the batch
-# axis), so Trainer.fit with an evaluator raises on such a loader.  The property covers these inputs; they are
-# NOT generated (the model mirrors the crash as `rejected`, set VERIF_C20_SIZE1=1 to see both sides agree on it).
-SIZE1 = os.environ.get('VERIF_C20_SIZE1', '0') == '1'
+# Finding F-C20-1 (Evaluator.step raised on a batch of ONE sample in every mode: `.squeeze()` dropped the batch axis) was a
+# genuine defect, repaired in /repo by fix a611d24 (every singleton axis except the batch axis is dropped).  One-sample batches
+# are generated everywhere.  Still rejected by the code, and by the model (`wellShaped`): a single / no score column in the
+# arg-max modes, a single / no label column in categorical mode, several output columns in binary mode, several label columns
+# in binary / multi-class mode.
 
 
 def _rows(rs):
@@ -542,7 +542,7 @@ def _gen_ev(rng):
     for _ in range(rng.randint(3, 10)):
         r = rng.random()
         if r < 0.62:
-            n = rng.pick([2, 2, 3, 4, 5, 6, 0] + ([1, 1] if SIZE1 else []))
+            n = rng.pick([1, 1, 2, 2, 3, 4, 5, 6, 0])
             labels, scores = _gen_batch(rng, mode, c['k'], c['scale'], n)
             c['ops'].append(['step', rng.pick([None, None, 'val', 'tst']), labels, scores])
         elif r < 0.86:
@@ -552,6 +552,17 @@ def _gen_ev(rng):
         else:
             c['ops'].append(['state'])
     c['ops'] += [['state'], ['compute', rng.pick([None, 'val'])], ['compute', None]]     # a second compute right after the first
+    if rng.chance(0.25):
+        # the last call has a shape the code still rejects (what the buffers hold after the exception is not modelled: nothing follows)
+        n = rng.pick([1, 2, 3])
+        k = c['k']
+        if mode == 'binary':
+            lw, sw = rng.pick([(1, 2), (2, 1), (1, 3)])
+        elif mode == 'multi-class':
+            lw, sw = rng.pick([(1, 1), (2, k), (1, 1)])
+        else:
+            lw, sw = rng.pick([(k, 1), (1, k), (1, 1)])
+        c['ops'].append(['badstep', None, [[rng.randrange(2) for _ in range(lw)] for _ in range(n)], [[rng.randint(-3, 3) for _ in range(sw)] for _ in range(n)]])
     return c
 
 
@@ -577,7 +588,7 @@ def _gen_hist(rng, large=False):
     if large:
         c['epochs'].append({'train': batches(40, lambda: 1000), 'val': batches(2, lambda: 1000) if c['hasVal'] else []})
         return c
-    sizes = lambda: rng.pick([2, 2, 3, 4, 5, 7] + ([1] if SIZE1 else []))
+    sizes = lambda: rng.pick([1, 1, 2, 2, 3, 4, 5, 7])
     for e in range(rng.randint(1, 3)):
         nt = 0 if rng.chance(0.03) else rng.randint(1, 4)
         nv = 0 if rng.chance(0.03) else rng.randint(1, 3)
@@ -589,7 +600,15 @@ def _gen_histreal(rng):
     mode = rng.pick([None] + MODE_NAMES * 2)
     return {'kind': 'histreal', 'mode': mode, 'k': rng.randint(2, 4), 'acc': int(rng.chance(0.85)), 'ecb': rng.pick([None, None, 'm1:len,m2:wsum']),
             'scb': None, 'hasVal': int(rng.chance(0.6)), 'E': rng.randint(1, 3), 'seed': rng.randrange(1 << 30),
-            'train_sizes': [rng.pick([2, 3, 4, 6]) for _ in range(rng.randint(1, 4))], 'val_sizes': [rng.pick([2, 3, 5]) for _ in range(rng.randint(1, 3))]}
+            'train_sizes': [rng.pick([1, 2, 3, 4, 6]) for _ in range(rng.randint(1, 4))], 'val_sizes': [rng.pick([1, 2, 3, 5]) for _ in range(rng.randint(1, 3))]}
+
+
+def _gen_histreal_dl(rng):
+    """Trainer.fit over the library's own DataLoader, batch_size 1 (mostly) or 2, with an evaluator"""
+    bs = rng.pick([1, 1, 1, 2])
+    return {'kind': 'histreal', 'mode': rng.pick(MODE_NAMES), 'k': rng.randint(2, 4), 'acc': 1, 'ecb': rng.pick([None, 'm1:len,m2:wsum']),
+            'scb': None, 'hasVal': int(rng.chance(0.6)), 'E': rng.randint(1, 3), 'seed': rng.randrange(1 << 30), 'dl': bs,
+            'train_sizes': [bs] * rng.randint(1, 5), 'val_sizes': [bs] * rng.randint(1, 3)}
 
 
 def _gen_testret(rng):
@@ -613,6 +632,7 @@ def _value_cases(rng, tier):
     out += [_gen_hist(rng) for _ in range(50 if q else 500)]
     out += [_gen_hist(rng, large=True) for _ in range(1 if q else 3)]      # 40 x 1000 samples in one epoch
     out += [_gen_histreal(rng) for _ in range(24 if q else 240)]
+    out += [_gen_histreal_dl(rng) for _ in range(12 if q else 80)]
     out += [_gen_testret(rng) for _ in range(8 if q else 40)]
     return out
 
@@ -631,7 +651,7 @@ def _vlines(c):
     if c['kind'] == 'ev':
         L = [f"train ev new {c['mode']} {c['scale']} {c['acc']} {c['ecb'] or '-'} {c['scb'] or '-'}"]
         for op in c['ops']:
-            if op[0] == 'step': L.append(f"train ev step {op[1] or '-'} {_rows(op[2])} {_rows(op[3])}")
+            if op[0] in ('step', 'badstep'): L.append(f"train ev step {op[1] or '-'} {_rows(op[2])} {_rows(op[3])}")
             elif op[0] == 'compute': L.append(f"train ev compute {op[1] or '-'}")
             elif op[0] == 'reset': L.append('train ev reset')
             else: L.append('train ev state')
@@ -652,7 +672,12 @@ def _run_ev(c):
     for op in c['ops']:
         try:
             with common.quiet():
-                if op[0] == 'step':
+                if op[0] == 'badstep':
+                    lab = sg.Tensor(np.array(op[2], dtype=np.float32))
+                    o = sg.Tensor((np.array(op[3], dtype=np.float64) / c['scale']).astype(np.float32))
+                    m = ev.step(lab, o)
+                    out.append(f'metrics={_show_metrics(m)} n={len(ev.y_true)}'); raw.append(m)
+                elif op[0] == 'step':
                     lab, o = _tensors(sg, c['mode'], c['k'], c['scale'], op[2], op[3], c['layout'], bool(c.get('wide')))
                     m = ev.step(lab, o) if op[1] is None else ev.step(lab, o, prefix=op[1])
                     out.append(f'metrics={_show_metrics(m)} n={len(ev.y_true)}'); raw.append(m)
@@ -744,8 +769,21 @@ def _run_histreal(c):
                 else: lab = sg.Tensor(y, dtype=np.int8)
                 res.append((sg.Tensor(X), lab))
             return res
-        tl = _EpochLoader([mk(c['train_sizes']) for _ in range(c['E'])])
-        vl = _EpochLoader([mk(c['val_sizes']) for _ in range(c['E'])]) if c['hasVal'] else None
+        if c.get('dl'):
+            from synapgrad.nn.utils.data import DataLoader
+            class TF:
+                def __call__(self, dl, X, y):
+                    if m_ == 'binary': return sg.Tensor(X), sg.Tensor(y.astype(np.float32))
+                    if m_ == 'categorical': return sg.Tensor(X), sg.Tensor(np.eye(k, dtype=np.float32)[y])
+                    return sg.Tensor(X), sg.Tensor(y, dtype=np.int8)
+            def mkdl(sizes):
+                n = sum(sizes) + (1 if c['dl'] > 1 else 0)           # a leftover sample that is never seen
+                return DataLoader(rs.randn(n, F).astype(np.float32), rs.randint(0, 2 if m_ == 'binary' else k, n), c['dl'], TF())
+            tl = mkdl(c['train_sizes'])
+            vl = mkdl(c['val_sizes']) if c['hasVal'] else None
+        else:
+            tl = _EpochLoader([mk(c['train_sizes']) for _ in range(c['E'])])
+            vl = _EpochLoader([mk(c['val_sizes']) for _ in range(c['E'])]) if c['hasVal'] else None
         base = nn.BCEWithLogitsLoss() if m_ == 'binary' else (nn.MSELoss() if m_ == 'categorical' else nn.CrossEntropyLoss())
         rec = []
         def crit(out, lab):
@@ -887,7 +925,7 @@ def _vcompare(c, mo, io):
 
 def _vnontrivial(c):
     if c['kind'] == 'ev':
-        return any(op[0] == 'step' and len(op[2]) >= 2 for op in c['ops'])
+        return any(op[0] == 'step' and len(op[2]) >= 1 for op in c['ops'])
     if c['kind'] == 'hist':
         return all(e['train'] and (e['val'] or not c['hasVal']) for e in c['epochs'])
     if c['kind'] == 'histreal':
@@ -927,12 +965,11 @@ def _oracle_ev(c):
     out, raw = _run_ev(c)
     yt, yp = [], []
     for op, r in zip(c['ops'], raw[1:]):
+        if op[0] == 'badstep':
+            continue                      # shapes outside the property (one score column in an arg-max mode, …)
         if op[0] == 'step':
-            legal = len(op[2]) != 1
             if r == 'rejected':
-                if legal or SIZE1:
-                    return _vfail(c, 'rejected', f'Evaluator.step raised on a batch of {len(op[2])} samples')
-                continue
+                return _vfail(c, 'rejected', f'Evaluator.step raised on a batch of {len(op[2])} sample(s)')
             bt = [_py_true(c['mode'], l) for l in op[2]]
             bp = [_py_pred(c['mode'], c['scale'], s_) for s_ in op[3]]
             yt += bt; yp += bp
@@ -960,8 +997,7 @@ def _oracle_hist(c):
     if real:
         legal = True
     else:
-        sizes = [len(x[1]) for e in c['epochs'] for x in e['train'] + e['val']]
-        legal = all(e['train'] and (e['val'] or not c['hasVal']) for e in c['epochs']) and (c['mode'] is None or 1 not in sizes)
+        legal = all(e['train'] and (e['val'] or not c['hasVal']) for e in c['epochs'])
     if r == 'rejected':
         return _vfail(c, 'rejected', 'fit raised on a legal configuration') if legal else None
     hist, rec, n = r
